@@ -98,3 +98,6 @@ ITEMS = [
        ensures=[('accepts_iff_conforms', 'r is Ok <==> conforms(self.schema, *entity, self.extensions)')]),
 ]
 CANARIES = ['validate_entity', 'validate_entity_attributes']
+# assumed contract (has_type): reviewed, not verified here (Type::typecheck_restricted_expr is proved in unit valtype)
+WATCH = [('cedar-policy-core/src/entities/conformance.rs', 'fn typecheck_value_against_schematype'),
+         ('cedar-policy-core/src/entities/conformance.rs', 'fn typecheck_restricted_expr_against_schematype')]
